@@ -172,7 +172,7 @@ class Exec:
 
     def iter_item(self, st, itv, loopid):
         """item produced by one `Iterator::next` of the iterable value itv, plus its bounds record"""
-        if isinstance(itv, tuple) and itv[0] == "adt" and str(itv[1]).endswith("Range"):
+        if isinstance(itv, tuple) and itv[0] == "adt" and re.match(r"(std|core)::ops::(range::)?Range$", str(itv[1])):
             d = dict(itv[3])
             iv = ("ivar", loopid)
             self.ivar_bounds[iv] = {"start": d["start"], "end": d["end"], "array": None}
@@ -254,8 +254,10 @@ class Exec:
         before = dict(s2.store.m)
         new = step(s2, acc_sym, item)
         for k, v in s2.store.m.items():
-            if isinstance(k[0], str) and before.get(k) != v:
-                raise Unsupported("fold closure writes to state (%s)" % pstr(k))
+            if before.get(k) != v and (isinstance(k[0], str) or k in before):
+                raise Unsupported("fold closure writes to something other than its accumulator (%s)" % pstr(k))
+        if s2.steps != st.steps:
+            raise Unsupported("fold closure steps a component")
         st.asserts = s2.asserts
         if tuple_acc:
             comps = []
@@ -353,7 +355,8 @@ class Exec:
         blk = fn.block_by_id[h]
         t = blk["term"]
         nm = callees.callee_name(t["callee"]) if t["k"] == "call" else ""
-        if t["k"] != "call" or not re.search(r"iter::Iterator>::next$|Iterator for .*>::next$", callees.strip_turbofish(nm)):
+        std_iter = t["k"] == "call" and (t["callee"].get("resolved_krate") or t["callee"].get("krate")) in ("core", "std", "alloc") and not t["callee"].get("resolved_local")
+        if t["k"] != "call" or not std_iter or not re.search(r"iter::Iterator>::next$|Iterator for .*>::next$", callees.strip_turbofish(nm)):
             return self.summarize_counted(fr, st, h)
         for s_ in blk["stmts"]:
             if s_["k"] == "assign":
@@ -1131,6 +1134,9 @@ class Exec:
             elif how == "step":
                 n = sum(1 for s in self.flat_steps(st.steps) if s[1] == pstr(recv))
                 node = ("step", pstr(recv), g.label, tuple(args[1:]), n)
+                foreign = [k_ for k_, v_ in st.store.m.items() if len(k_) > len(recv) and k_[:len(recv)] == recv]
+                if foreign:
+                    raise Unsupported("the state of component `%s` is written directly (%s) before it is stepped: only its own methods may change it" % (pstr(recv), pstr(foreign[0])))
                 st.steps = st.steps + (node,)
                 st.store.write(recv, ("post", node, ()))
                 res = ("ret", node)
@@ -1138,7 +1144,13 @@ class Exec:
                 for a in args:
                     if isinstance(a, tuple) and a[0] == "ref" and self._is_mut_ref(t, args.index(a)):
                         raise Unsupported("uninterpreted local call with &mut argument: " + name)
-                res = ("ucall", g.label, tuple(args), len(st.steps))
+                # the call reads the state behind its reference arguments as it is *now*: two calls around a store are different values
+                snap = []
+                for a in args:
+                    if isinstance(a, tuple) and a[0] == "ref" and isinstance(a[1][0], str):
+                        pre_ = a[1]
+                        snap.append(tuple(sorted(((pstr(k_), v_) for k_, v_ in st.store.m.items() if k_[:len(pre_)] == pre_), key=repr)))
+                res = ("ucall", g.label, tuple(args), len(st.steps)) + ((("at", tuple(snap)),) if any(snap) else ())
         elif cls == "user":
             res = ("get", callee["name"], args[0])
         else:
@@ -1208,6 +1220,8 @@ class Exec:
             if c is not None and ev is None:
                 self.add_fact(s2, c, True)
             live.append((c, thunk(s2), s2))
+            if s2.steps != st.steps and ev is not True and c is not None:
+                raise Unsupported("a component is stepped inside a conditionally executed closure")
             if ev is True or c is None:
                 break
         if not live:
@@ -1549,6 +1563,8 @@ class Exec:
             if ev is not True:
                 self.add_fact(s2, c, True)
             v = self.call_closure(s2, args[1], [])
+            if ev is not True and s2.steps != st.steps:
+                raise Unsupported("a component is stepped inside a conditionally executed closure")
             if ev is not True:
                 for k_, v_ in s2.store.m.items():
                     if isinstance(k_[0], str) and st.store.m.get(k_) != v_:
@@ -1575,6 +1591,10 @@ class Exec:
         for i, a in enumerate(args):
             if isinstance(a, tuple) and a[0] == "ref" and self._is_mut_ref(t, i) and a[1][0] == "self":
                 raise Unsupported("std call with &mut to state: " + name)
+        for a in args:
+            inner = self.deref_val(st, a) if isinstance(a, tuple) and a[0] == "ref" and not isinstance(a[1][0], str) else a
+            if isinstance(inner, tuple) and inner and inner[0] in ("closure", "fn"):
+                raise Unsupported("a closure / function is passed to an unmodelled callee (%s): its effects are unknown" % name)
         snap = []
         for a in args:
             if isinstance(a, tuple) and a[0] == "ref" and not isinstance(a[1][0], str):
